@@ -1,4 +1,5 @@
 import Capella.Lemmas.DeclYaml
+import Capella.Lemmas.DeclSync
 
 /-!
 # C13 — declarative sync is idempotent; instruction documents survive dump and load
@@ -22,6 +23,112 @@ when there is no metadata, two otherwise). -/
 theorem stream_roundtrip (instrs : List DVal) (md : List (Str × DVal)) (hi : WFlist instrs) (hm : WFkvs md) :
     loadWithMetadata (dumpDocs instrs md) = .ok (md, instrs) :=
   load_dump instrs md hi hm
+
+/-! ## sync -/
+
+open Capella.Decl in
+/-- **A second run over a settled document changes nothing and creates nothing**: if every sync entry of
+every instruction (recursively through nested `sync`) finds exactly one object in its list and that
+object already carries the entry's `set` values, then `apply` returns the very same graph — whatever the
+promise ids, type hints, nesting depth and number of instructions. -/
+theorem settled_run_changes_nothing {dflt : List (Capella.Decl.Str × Capella.Decl.Str)} {g : Graph}
+    {doc : List Instr} {g' : Graph} {ps' : Promises} (hdoc : ∀ i ∈ doc, SettledInstr g i)
+    (h : apply dflt g doc = .ok (g', ps')) : g' = g :=
+  settled_apply hdoc h
+
+open Capella.Decl in
+/-- **The first run settles an entry it creates** — exactly when no `set` key overrides a `find` key: if
+nothing in the list matched the find, the object created from `find | set` is afterwards the one and
+only match, provided the last value assigned to every find key is the find value (`KeysKept`). This is
+where the hypothesis "find keys disjoint from set keys" is forced. -/
+theorem created_entry_is_found (g : Graph) (par : Id) (attr : Capella.Decl.Str) (nid : Id) (cls : Capella.Decl.Str)
+    (rs rk : List (Capella.Decl.Str × RVal)) (ty : Option Capella.Decl.Str)
+    (hfresh : g.clsOf nid = none) (hnm : nid ∉ g.members par attr) (hcls : ∀ t, ty = some t → cls = t)
+    (hnone : g.findAmong (g.members par attr) ty rk = .ok none) (hk : KeysKept rk rs) :
+    (g.create par attr nid cls rs).findAmong ((g.create par attr nid cls rs).members par attr) ty rk
+      = .ok (some nid) :=
+  created_is_found g par attr nid cls rs rk ty hfresh hnm hcls hnone hk
+
+open Capella.Decl in
+/-- and the values the entry sets are then present: an attribute holds the last value assigned to it -/
+theorem created_entry_has_set_values (g : Graph) (par : Id) (attr : Capella.Decl.Str) (nid : Id)
+    (cls : Capella.Decl.Str) (rs : List (Capella.Decl.Str × RVal)) (k : Capella.Decl.Str) (v : RVal)
+    (h : rs.reverse.lookup k = some v) : (g.create par attr nid cls rs).getScal nid k = some v := by
+  rw [create_getScal_new, h]
+
+section
+open Capella.Decl
+
+def ds (x : String) : Capella.Decl.Str := x.toList
+
+/-- sync-only: no create/extend/set/delete on instruction level (entries may carry anything) -/
+def SyncOnly (doc : List Instr) : Prop :=
+  ∀ i ∈ doc, i.create = [] ∧ i.ext = [] ∧ i.set = [] ∧ i.del = []
+
+/-- Idempotence for *all* sync-only documents: a second application returns the graph the first one
+left. **False** (`sync_idempotent_full_fails`): a `set` key may override a `find` key. -/
+def SyncIdempotent_full : Prop :=
+  ∀ (dflt : List (Capella.Decl.Str × Capella.Decl.Str)) (g : Graph) (doc : List Instr) (g1 g2 : Graph) (ps1 ps2 : Promises),
+    SyncOnly doc → apply dflt g doc = .ok (g1, ps1) → apply dflt g1 doc = .ok (g2, ps2) → g2 = g1
+
+/-- `find: {name: A}`, `set: {name: B}` below object 1 -/
+def overrideDoc : List Instr := [
+  { parent := .atom (.uuid 1),
+    sync := [(ds "classes", [.mk 10 11 none [(ds "name", .str (ds "A"))] none
+      [(ds "name", .scalar (.atom (.str (ds "B"))))] [] []])] }]
+
+def g0 : Graph := { objs := [(1, ds "DataPkg")] }
+
+def objCount (r : Except Err (Graph × Promises)) : Option Nat :=
+  match r with | .ok r => some r.1.objs.length | .error _ => none
+
+/-- first run: 2 objects; second run on its result: 3 -/
+theorem override_counts :
+    objCount (apply [] g0 overrideDoc) = some 2 ∧
+    objCount ((apply [] g0 overrideDoc).bind fun r => apply [] r.1 overrideDoc) = some 3 := by
+  decide
+
+/-- The statement without the hypothesis is refuted by the model (and, replayed on every run, by the
+implementation: known finding `sync-twice|creates-again|set-overrides-find-key`). -/
+theorem sync_idempotent_full_fails : ¬ SyncIdempotent_full := by
+  intro h
+  have hc := override_counts
+  cases h1 : apply [] g0 overrideDoc with
+  | error e => simp [h1, objCount] at hc
+  | ok r1 =>
+    obtain ⟨g1, ps1⟩ := r1
+    simp only [h1, Except.bind] at hc
+    cases h2 : apply [] g1 overrideDoc with
+    | error e => simp [h2, objCount] at hc
+    | ok r2 =>
+      obtain ⟨g2, ps2⟩ := r2
+      have := h [] g0 overrideDoc g1 g2 ps1 ps2 (by intro i hi; simp [overrideDoc] at hi; subst hi; simp) h1 h2
+      simp [h2, objCount] at hc
+      rw [this] at hc
+      omega
+
+/-- a settled state: object 5 named `A` is in `classes` of 1 and already has `description = d` -/
+def gSettled : Graph :=
+  { objs := [(1, ds "DataPkg"), (5, ds "Class")],
+    scal := [((5, ds "name"), .str (ds "A")), ((5, ds "description"), .str (ds "d"))],
+    edges := [(1, ds "classes", 5)] }
+
+def settledDoc : List Instr := [
+  { parent := .atom (.uuid 1),
+    sync := [(ds "classes", [.mk 10 11 (some (ds "Class")) [(ds "name", .str (ds "A"))] (some (ds "p"))
+      [(ds "description", .scalar (.atom (.str (ds "d"))))] [] []])] }]
+
+example : ∀ i ∈ settledDoc, SettledInstr gSettled i := by
+  intro i hi
+  simp only [settledDoc, List.mem_cons, List.mem_nil_iff, or_false] at hi
+  subst hi
+  refine ⟨1, Or.inl ⟨rfl, by decide⟩, rfl, rfl, rfl, rfl, ?_⟩
+  refine ⟨⟨⟨rfl, trivial, 5, [(ds "name", .str (ds "A"))], by rfl, ⟨by rfl, trivial⟩, trivial⟩, trivial⟩, trivial⟩
+
+example : (match apply [] gSettled settledDoc with | .ok r => some (decide (r.1 = gSettled), r.2) | .error _ => none)
+    = some (true, [(ds "p", 5)]) := by decide
+
+end
 
 /-! ## non-vacuity -/
 
